@@ -132,7 +132,15 @@ func apply(objs *[]obj, o op, clonebuf *[]buffer.View) (msg string) {
 		c := t.vv.Clone(nil)
 		*objs = append(*objs, obj{vv: c, ref: t.ref})
 	case "clonebuf":
-		*clonebuf = make([]buffer.View, o.N)
+		// scratch slices of every shape: full (len == cap), empty with room, partly filled
+		switch o.N % 3 {
+		case 0:
+			*clonebuf = make([]buffer.View, o.N)
+		case 1:
+			*clonebuf = make([]buffer.View, 0, o.N+4)
+		default:
+			*clonebuf = make([]buffer.View, o.N/2, o.N+3)
+		}
 		c := t.vv.Clone(*clonebuf)
 		*objs = append(*objs, obj{vv: c, ref: (*objs)[o.Obj].ref})
 	}
@@ -503,11 +511,20 @@ func viewAndPrependable(run *fw.Run) {
 			}
 		}
 	}
-	// NewPrependableFromView
+	// NewPrependableFromView, also over views that are a slice of a larger buffer (spare
+	// capacity behind them, as the first view of a received packet has)
 	for n := 0; n <= 16; n++ {
-		p := buffer.NewPrependableFromView(buffer.NewViewFromBytes(content(n)))
-		if p.UsedLength() != n || !bytes.Equal(p.View(), content(n)) || (p.Prepend(1) != nil) {
-			run.Violation("C16/prependable/fromview", "NewPrependableFromView does not represent its view", n)
+		for _, spare := range []int{0, 1, 7, 100} {
+			back := append(content(n), bytes.Repeat([]byte{0xEE}, spare)...)
+			v := buffer.View(back[:n])
+			if spare == 0 {
+				v = buffer.NewViewFromBytes(content(n))
+			}
+			p := buffer.NewPrependableFromView(v)
+			if p.UsedLength() != n || !bytes.Equal(p.View(), content(n)) || (p.Prepend(1) != nil) {
+				run.Violation("C16/prependable/fromview", fmt.Sprintf("NewPrependableFromView over a view of %d bytes with %d bytes of spare capacity: UsedLength()=%d, View()=%x", n, spare, p.UsedLength(), []byte(p.View())), n)
+			}
+			run.Case(fw.Hash("prep-fromview", n, spare), true)
 		}
 	}
 }
